@@ -4,7 +4,7 @@ import sys
 import time
 import traceback
 
-from . import common, facts, interp, wire, rules_wire, rules_header, rules_hash, golden, hashrec, rules_align, gen_units, guards, rules_eps, rules_err
+from . import common, facts, interp, wire, rules_wire, rules_header, rules_hash, golden, hashrec, rules_align, gen_units, guards, rules_eps, rules_err, rules_schema
 from .common import Report, Facts, ExportError
 
 ASSUME_COMMON = [
@@ -603,7 +603,22 @@ def rules_eps_mmap_len(u, rep):
                     rep.add("MAPLEN", "mmap", "the mmap loader maps `%s` bytes rather than exactly the file length" % a0.get("k"), b.crate.span(e["sp"]))
 
 
-CHECKS = {"C12": check_C12, "C03": check_C03, "C11": check_C11, "C16": check_C16, "C07": check_C07, "C04": check_C04, "C06": check_C06, "C10": check_C10, "C01": check_C01, "C02": check_C02, "C15": check_C15, "C05": check_C05}
+def check_C18(ctx):
+    rep = ctx.rep
+    rep.rule("ALIGN", "SchemaWriter::align moves by the same padding expression as the default and writes only zero bytes (sibling agreement with the default writer)")
+    rep.rule("FORWARD", "write delegates exactly once to _serialize_inner(value, self); write_bytes forwards the slice unchanged; write_all/flush/pos forward to the wrapped writer")
+    rep.rule("ROW", "rows: align -> {offset: pos(), size: padding, align: 1} recorded before the bytes, only when padding != 0; write -> inserted at the row count taken before the nested write, {offset: pos() before, size: pos() after - offset}; write_bytes -> {offset: pos(), size: value.len(), align: V::max_size_of()} recorded before the bytes")
+    rep.rule("RENDER", "Schema::debug indexes the data only with row.offset..row.offset+row.size")
+    u = ctx.universe()
+    rules_schema.rules_schema_writer(u, rep)
+    rules_schema.rules_schema_render(u, rep)
+    rep.floor("SchemaWriter method paths analysed", rep.counters.get("schema_writer_paths", 0), 6)
+    rep.floor("data index sites in the renderers", rep.counters.get("render_index_sites", 0), 2)
+    return ("Sibling agreement between the recording writer's overrides and the default WriteWithNames methods (same stream), and dataflow of the recorded rows "
+            "(offsets taken from pos() before the bytes, sizes from the bytes written). Tiling for every value and failure-freedom of rendering for every schema/data pair are not decided.")
+
+
+CHECKS = {"C18": check_C18, "C12": check_C12, "C03": check_C03, "C11": check_C11, "C16": check_C16, "C07": check_C07, "C04": check_C04, "C06": check_C06, "C10": check_C10, "C01": check_C01, "C02": check_C02, "C15": check_C15, "C05": check_C05}
 
 
 def main(argv):
